@@ -22,6 +22,8 @@
     node is unlinked its right sibling takes over the range ([EUnlink id true]), otherwise the left
     sibling does ([EUnlink id false]) -- interior_node.h delete_of.
 
+    Versions: an insert bumps the insert counter of its border, a split the split counter of the border that is
+    split, an unlink sets the deleted flag; a REMOVE leaves the version word unchanged, exactly as in the code.
     Over-approximations (every behaviour of the code is a behaviour of the model, not conversely):
     node capacity is not bounded and a split may happen at any time at any key of the node; a remove
     that empties a node and the unlink of that node are two steps; version counters do not wrap.
@@ -165,7 +167,9 @@ Definition cstep (fix_ : bool) (s : cstate) (e : cev) : option cstate :=
       match cover k ns with
       | None => None
       | Some n =>
-          Some {| c_nodes := update_node (cn_id n) (fun x => with_keys x (remove_key k (cn_keys x)) (bump_ins (cn_ver x))) ns;
+          (* a remove does NOT change the version word of its border (interface_remove.h: "delete operation is not
+             tracked"; the unlock after delete_of finds no dirty bit): readers cannot detect it by the version *)
+          Some {| c_nodes := update_node (cn_id n) (fun x => with_keys x (remove_key k (cn_keys x)) (cn_ver x)) ns;
                   c_fresh := c_fresh s; c_scan := sc; c_stable := remove_key k (c_stable s); c_ever := c_ever s |}
       end
   | ESplit id m =>
